@@ -314,6 +314,22 @@ namespace c08
                 op["fault"] = rngfault::gen(g, 12);
             ops.push(op);
         }
+        // (drawn last) the application narrows the bounds of a real-vector space while samplers of it are alive: "every
+        // bound setting" includes the current one (only on a top-level R^n, whose bounds are the sampler's only input;
+        // spaces with derived or cached bounds are left alone)
+        if (plan["space"].gets("t") == "rv" && g.chance(0.5))
+        {
+            int n = (int)g.range(1, 2);
+            for (int i = 0; i < n; i++)
+            {
+                Json op = Json::object();
+                op["op"] = "rebound";
+                op["a"] = g.pick(std::vector<double>{0.0, 0.1, 0.45});
+                op["b"] = g.pick(std::vector<double>{0.0, 0.25, 0.5});
+                size_t at = (size_t)g.range(0, (long)ops.size());
+                ops.items().insert(ops.items().begin() + (long)at, op);
+            }
+        }
         plan["ops"] = ops;
         return plan;
     }
@@ -350,7 +366,7 @@ namespace c08
         rngfault::arm(Json());
         sampler->sampleUniform(center);
         uint64_t h = 1469598103934665603ULL;
-        long draws = 0, faultsFired = 0, validTrue = 0, validFalse = 0, enforced = 0;
+        long draws = 0, faultsFired = 0, validTrue = 0, validFalse = 0, enforced = 0, rebounds = 0;
         std::string kinds;
         auto hashState = [&](const ob::State *s) {
             std::vector<double> r;
@@ -395,6 +411,27 @@ namespace c08
                 hashState(cur);
                 if (oi % 3 == 0)
                     sp->copyState(center, cur);
+            }
+            else if (k == "rebound")
+            {
+                rngfault::disarm();
+                auto *rv = dynamic_cast<ob::RealVectorStateSpace *>(sp.get());
+                if (!rv)
+                    continue;
+                ob::RealVectorBounds b = rv->getBounds();
+                for (size_t d = 0; d < b.low.size(); d++)
+                {
+                    double w = b.high[d] - b.low[d];
+                    double lo = b.low[d] + op.getd("a") * w, hi = b.high[d] - op.getd("b") * w;
+                    if (std::isfinite(lo) && std::isfinite(hi) && lo <= hi)
+                    {
+                        b.low[d] = lo;
+                        b.high[d] = hi;
+                    }
+                }
+                rv->setBounds(b);
+                sp->enforceBounds(center);  // the centre of near / Gaussian sampling is a state of the space
+                rebounds++;
             }
             else if (k == "valid")
             {
@@ -496,6 +533,7 @@ namespace c08
         res.probes["valid-sampler-success"] += validTrue;
         res.probes["valid-sampler-exhausted(false)"] += validFalse;
         res.probes["enforceBounds-on-displaced-state"] += enforced;
+        res.probes["bounds-narrowed-with-live-samplers"] += rebounds;
         Json info = Json::object();
         info["draws"] = Json(draws);
         info["valid_true"] = Json(validTrue);
